@@ -36,6 +36,15 @@ def _run_one(exe, harness, prop, tier, scn, budget, bound):
 
 def run(ctx, spec):
     """spec: harnesses=[name], level, budget={quick: s, thorough: s} per scenario, bound override."""
+    cov = explore(ctx, spec)
+    ctx.assumptions += spec.get("assumptions", [])
+    if spec.get("post"):
+        spec["post"](ctx, cov)
+    return runner.finish(ctx, spec.get("level", "model_checking"), cov)
+
+
+def explore(ctx, spec):
+    """Runs the harness scenarios, records violations in ctx and returns the coverage dict."""
     exe = build(ctx)
     tier = ctx.tier
     jobs = []
@@ -102,10 +111,7 @@ def run(ctx, spec):
         "worker_errors": errors[:5],
         "slowest_scenarios": [{"scenario": n, "wall_s": round(w, 1)} for w, n in slow],
     }
-    ctx.assumptions += spec.get("assumptions", [])
-    if spec.get("post"):
-        spec["post"](ctx, cov)
-    return runner.finish(ctx, spec.get("level", "model_checking"), cov)
+    return cov
 
 
 def race_pass(ctx, cov):
